@@ -296,6 +296,12 @@ impl<'ast> Loader<'ast> {
             }
         }
 
+        // `i64::from_str_radix` and `str::parse::<i64>` accept a leading sign: "0x-5" or "++5"
+        // aren't YAML integers (and the YAML emitter writes such strings unquoted).
+        fn unsigned(digits: &str) -> bool {
+            !digits.starts_with(['+', '-'])
+        }
+
         // Parse a YAML scalar, inferring the type from the value itself.
         fn parse<'a>(
             v: &str,
@@ -304,14 +310,17 @@ impl<'ast> Loader<'ast> {
             alloc: &'a AstAlloc,
         ) -> Result<ast::Node<'a>, ParseError> {
             if let Some(number) = v.strip_prefix("0x")
+                && unsigned(number)
                 && let Ok(i) = i64::from_str_radix(number, 16)
             {
                 return Ok(alloc.number(i.into()));
             } else if let Some(number) = v.strip_prefix("0o")
+                && unsigned(number)
                 && let Ok(i) = i64::from_str_radix(number, 8)
             {
                 return Ok(alloc.number(i.into()));
             } else if let Some(number) = v.strip_prefix('+')
+                && unsigned(number)
                 && let Ok(i) = number.parse::<i64>()
             {
                 return Ok(alloc.number(i.into()));
